@@ -705,6 +705,40 @@ Proof.
   split; [now apply body_size|]. exact Hrep.
 Qed.
 
+(* ---------------------------------------------------------------- uuid *)
+Lemma norsv_uuid : norsv dec_uuid.
+Proof.
+  intros h r l rsv r' H. unfold dec_uuid in H. apply pbind_ok in H. destruct H as (u & r0 & _ & H).
+  destruct (bytes_eqb u uuid_tfxd); [nrun H; unfold pret in H; injection H; intros; subst; reflexivity|].
+  destruct (bytes_eqb u uuid_tfrf); [nrun H; unfold pret in H; injection H; intros; subst; reflexivity|].
+  destruct (bytes_eqb u uuid_piff).
+  - destruct (h_size h <? 16); [discriminate H|]. apply pbind_ok in H. destruct H as ([l0 rsv0] & r1 & _ & H). cbn [fst] in H.
+    destruct l0; try discriminate H. unfold pret in H. injection H; intros; subst. reflexivity.
+  - destruct (h_size h <? 24); [discriminate H|]. nrun H. unfold pret in H. injection H; intros; subst. reflexivity.
+Qed.
+
+Lemma sized_uuid : sized dec_uuid.
+Proof.
+  intros h r l rsv r' Hok Hnm H G (Hsz & Hlen & _). unfold dec_uuid in H. step H.
+  destruct (bytes_eqb a uuid_tfxd); [run H; inj_pret H; reflexivity|].
+  destruct (bytes_eqb a uuid_tfrf).
+  { run H. tail_many H (item_pairw (uuid_w (vf_version a0))). inj_pret H. cbn [leaf_size_guard]. apply N.leb_le. lia. }
+  destruct (bytes_eqb a uuid_piff).
+  { destruct (h_size h <? 16) eqn:E16; [discriminate H|].
+    apply pbind_ok in H. destruct H as ([l0 rsv0] & r1 & E & H). cbn [fst] in H.
+    destruct l0; try discriminate H. inj_pret H.
+    unfold dec_senc in E. cbn [h_size h_len payload_len] in E. unfold payload_len in E. cbn [h_size h_len] in E. run E. inj_pret E.
+    cbn [leaf_size_guard leaf_guard size_leaf leaf_large] in *. apply N.eqb_eq.
+    apply N.ltb_ge in Hc, Hc1, E16.
+    destruct ((count =? 0) || (lenN raw =? 0)) eqn:Ez; cbn [negb orb] in *.
+    - apply N.eqb_eq in G. lia.
+    - lia. }
+  destruct (h_size h <? 24); [discriminate H|]. run H. inj_pret H. cbn [leaf_size_guard]. apply N.eqb_eq. assumption.
+Qed.
+
+Lemma stable_uuid : leaf_stable dec_uuid.
+Proof. apply stable_of_local; [exact lossless_uuid|exact local_uuid|exact norsv_uuid|exact sized_uuid]. Qed.
+
 (* ---------------------------------------------------------------- every table entry *)
 Lemma pre_leaf_stable d : pre_stable d -> leaf_stable d.
 Proof. intros H h r l rsv r' Hok Hnm E G _ _. exact (H _ _ _ _ _ Hok Hnm E G). Qed.
@@ -768,7 +802,7 @@ Proof.
           | exact (pre_leaf_stable _ pstable_tfra) | exact stable_pssh | exact stable_url | exact stable_avcC
           | exact stable_btrt | exact stable_pasp | exact (pre_leaf_stable _ pstable_colr) | exact stable_clap
           | exact stable_schm | exact stable_cslg | exact stable_senc | exact stable_emsg | exact stable_elng
-          | exact stable_kind | exact stable_hvcC | exact stable_subs | exact stable_esds ].
+          | exact stable_kind | exact stable_hvcC | exact stable_subs | exact stable_esds | exact stable_uuid ].
 Qed.
 
 Lemma pre_table_stable : Forall (fun e => pre_stable (fst (snd e))) pre_table.
